@@ -21,6 +21,8 @@ import (
 
 	"github.com/containerd/stargz-snapshotter/cmd/containerd-stargz-grpc/db"
 	"github.com/containerd/stargz-snapshotter/estargz"
+	"github.com/containerd/stargz-snapshotter/estargz/externaltoc"
+	"github.com/containerd/stargz-snapshotter/estargz/zstdchunked"
 	"github.com/containerd/stargz-snapshotter/metadata"
 	"github.com/containerd/stargz-snapshotter/metadata/memory"
 	bolt "go.etcd.io/bbolt"
@@ -44,6 +46,42 @@ type Case struct {
 	// behind it ("doubleclose": second Close of an already closed layer; "raw": a transaction function that returns an error),
 	// so bolt rolls the batch back and re-runs the healthy function.
 	Coalesce string `json:"coalesce,omitempty"`
+	// Comp: "" = gzip eStargz, "zstd" = zstd:chunked, "exttoc" = gzip eStargz with the TOC outside the blob
+	Comp    string `json:"comp,omitempty"`
+	extTOC0 []byte
+}
+
+// layer = a blob and the options both stores need to open it
+type layer struct {
+	blob []byte
+	opts []metadata.Option
+}
+
+// mkLayer attaches a TOC (JSON bytes) to the data members of the case's blob, in the case's format.
+func mkLayer(c *Case, data []byte, tocOff int64, tocJ []byte) layer {
+	switch c.Comp {
+	case "zstd":
+		b := append(append([]byte{}, data[:tocOff]...), zstdTOC(tocOff, tocJ)...)
+		return layer{b, []metadata.Option{metadata.WithDecompressors(&zstdchunked.Decompressor{})}}
+	case "exttoc":
+		member := tocMember(tocJ)
+		d := externaltoc.NewGzipDecompressor(func() ([]byte, error) { return member, nil })
+		return layer{data, []metadata.Option{metadata.WithDecompressors(d)}}
+	}
+	return layer{wrapTOC(data, tocOff, tocJ), nil}
+}
+
+// origLayer is the builder's own output.
+func origLayer(c *Case, data []byte) layer {
+	switch c.Comp {
+	case "zstd":
+		return layer{data, []metadata.Option{metadata.WithDecompressors(&zstdchunked.Decompressor{})}}
+	case "exttoc":
+		member := c.extTOC0
+		d := externaltoc.NewGzipDecompressor(func() ([]byte, error) { return member, nil })
+		return layer{data, []metadata.Option{metadata.WithDecompressors(d)}}
+	}
+	return layer{data, nil}
 }
 
 type Result struct {
@@ -130,13 +168,14 @@ func exec(c *Case) *Result {
 	if c.NullEntries && len(ents) == 0 {
 		res.tocBytes = []byte(`{"version":1,"entries":null}`)
 	}
-	blob := wrapTOC(blob0, tocOff, res.tocBytes)
+	mainL := mkLayer(c, blob0, tocOff, res.tocBytes)
+	blob := mainL.blob
 	res.blobSize = int64(len(blob))
 	probes := probeOffsets(ents, c.Probes)
 	comp := componentInterner(ents)
 
 	// memory store
-	mr, err := memory.NewReader(sectionOf(blob))
+	mr, err := memory.NewReader(sectionOf(blob), mainL.opts...)
 	if err != nil {
 		res.mem = &View{Err: true, ErrText: errClass(err)}
 	} else {
@@ -169,13 +208,13 @@ func exec(c *Case) *Result {
 		fmt.Sscan(d, &ms)
 		bdb.MaxBatchDelay = time.Duration(ms) * time.Millisecond
 	}
-	blobs := map[string][]byte{"m": blob, "a": blob0, "b": blob}
+	blobs := map[string]layer{"m": mainL, "a": origLayer(c, blob0), "b": mkLayer(c, blob0, tocOff, res.tocBytes)}
 	if c.BadNeighbour {
 		bad := append([]*estargz.TOCEntry{}, orig...)
 		bad = append(bad, &estargz.TOCEntry{Name: "zzbad", Type: "hardlink", LinkName: "no/such/target"})
-		blobs["c"] = wrapTOC(blob0, tocOff, tocJSON(bad, 0, ""))
+		blobs["c"] = mkLayer(c, blob0, tocOff, tocJSON(bad, 0, ""))
 	} else {
-		blobs["c"] = wrapTOC(blob0, tocOff, tocJSON(nil, 0, "")) // empty layer
+		blobs["c"] = mkLayer(c, blob0, tocOff, tocJSON(nil, 0, "")) // empty layer
 	}
 	readers := map[string]metadata.Reader{}
 	first := map[string]*View{}
@@ -185,7 +224,8 @@ func exec(c *Case) *Result {
 	if c.Coalesce != "" {
 		res.injected = map[string]int{}
 		var closedX metadata.Reader
-		if x, err := db.NewReader(bdb, sectionOf(wrapTOC(blob0, tocOff, tocJSON(nil, 0, "")))); err == nil {
+		auxL := mkLayer(c, blob0, tocOff, tocJSON(nil, 0, ""))
+		if x, err := db.NewReader(bdb, sectionOf(auxL.blob), auxL.opts...); err == nil {
 			if _, err := x.GetOffset(x.RootID()); err == nil && x.Close() == nil {
 				closedX = x
 			}
@@ -219,7 +259,7 @@ func exec(c *Case) *Result {
 			wg.Add(1)
 			go func(nm string) {
 				defer wg.Done()
-				r, err := db.NewReader(bdb, sectionOf(blobs[nm]))
+				r, err := db.NewReader(bdb, sectionOf(blobs[nm].blob), blobs[nm].opts...)
 				var early *Node
 				if err == nil && nm == "m" {
 					if a, e2 := r.GetAttr(r.RootID()); e2 == nil {
@@ -271,7 +311,7 @@ func exec(c *Case) *Result {
 		var opens []string
 		for i < len(sched) && strings.HasPrefix(sched[i], "open:") {
 			nm := sched[i][5:]
-			if _, ok := first[nm]; !ok && blobs[nm] != nil && !contains(opens, nm) {
+			if _, ok := first[nm]; !ok && blobs[nm].blob != nil && !contains(opens, nm) {
 				opens = append(opens, nm)
 			}
 			i++
@@ -316,7 +356,7 @@ func exec(c *Case) *Result {
 	}
 	// the unmutated neighbour must agree with the memory store as well (builder output, oracle only)
 	if va, ok := first["a"]; ok {
-		if ma, err := memory.NewReader(sectionOf(blob0)); err == nil {
+		if ma, err := memory.NewReader(sectionOf(blobs["a"].blob), blobs["a"].opts...); err == nil {
 			mv := observe(ma, comp, probes, true, false)
 			if d := diffViews(mv, stripPre(va)); len(d) > 0 {
 				res.problems = append(res.problems, fmt.Sprintf("builder output (neighbour a): stores differ: %+v", d[0]))
